@@ -29,7 +29,8 @@ VERIF = str(runner.VERIF)
 
 
 def _spawn(args, seed):
-    env = dict(os.environ, PYTHONHASHSEED=str(seed), PYTHONPATH=VERIF)
+    pp = VERIF + (os.pathsep + os.environ['PYTHONPATH'] if os.environ.get('PYTHONPATH') else '')
+    env = dict(os.environ, PYTHONHASHSEED=str(seed), PYTHONPATH=pp)
     return subprocess.Popen([sys.executable, '-B', '-m', 'wnmc.e4_worker'] + args, cwd=VERIF, env=env,
                             stdout=subprocess.PIPE, stderr=subprocess.STDOUT)
 
